@@ -16,7 +16,20 @@ import (
 
 // failure strings carry '%' or '!' which the generated output alphabet lacks, so an output
 // contains one exactly when the generator put it there
-var failPool = []string{"% Invalid input", "% Error", "!ERR", "%%failed", "syntax error!", "% Incomplete command"}
+var failPool = []string{"% Invalid input", "% Error", "!ERR", "%%failed", "syntax error!", "% Incomplete command", "% Bad ", " !fatal"}
+
+// embed puts failure string f into an output line so that the line contains f whatever the
+// library trims at line edges (f may begin or end with a blank)
+func embed(f string) string {
+	if strings.HasPrefix(f, " ") {
+		f = "a" + f
+	}
+	if strings.HasSuffix(f, " ") {
+		f += "z"
+	}
+
+	return f
+}
 
 func genC13(seed uint64, run int, tier string) Scenario {
 	rs := kernel.RunSeed(seed, "C13", run)
@@ -114,6 +127,15 @@ func genC13(seed uint64, run int, tier string) Scenario {
 				continue
 			}
 			c := g.cmd(pick(r, "show", "set"))
+			if len(inForce) > 0 && j < n-1 && r.IntN(8) == 0 {
+				// the command line itself mentions a failure string in force (a filter on the
+				// device's log, say): that is input, not output
+				c += " | include " + strings.TrimSpace(pick(r, inForce...)) + "_"
+			}
+			if strings.HasSuffix(op.Kind, "file") && r.IntN(8) == 0 {
+				// a line of the file longer than any line buffer
+				c += " " + word(r, lower+digits, 4090, 4700)
+			}
 			var toks []peer.Tok
 			var lines []string
 			nl := between(r, 0, 3)
@@ -129,14 +151,27 @@ func genC13(seed uint64, run int, tier string) Scenario {
 			for l := 0; l < nl; l++ {
 				s := word(r, sessAlpha, 1, 20)
 				if l == failLine {
-					s = word(r, sessAlpha, 0, 6) + pick(r, inForce...) + word(r, sessAlpha, 0, 6)
+					s = word(r, sessAlpha, 0, 6) + embed(pick(r, inForce...)) + word(r, sessAlpha, 0, 6)
 					if r.IntN(4) == 0 {
 						// the device complains twice: two of the strings in force in one output
-						s += " " + pick(r, inForce...) + word(r, sessAlpha, 0, 4)
+						s += " " + embed(pick(r, inForce...)) + word(r, sessAlpha, 0, 4)
 					}
 				} else if len(other) > 0 && r.IntN(6) == 0 {
 					// a string of the list that is NOT in force must not mark the response
-					s += pick(r, other...)
+					s += embed(pick(r, other...))
+				} else if r.IntN(6) == 0 {
+					// ... nor does a string in force without the blank it begins or ends with
+					for _, f := range inForce {
+						if t := strings.TrimSpace(f); t != f {
+							if strings.HasSuffix(f, " ") {
+								s = strings.TrimRight(s, " ") + "-" + t + "x"
+							} else {
+								s = strings.TrimRight(s, " ") + "x" + t
+							}
+
+							break
+						}
+					}
 				}
 				toks = append(toks, peer.Tok{S: s})
 				if l < nl-1 {
